@@ -62,7 +62,7 @@ def cases(tier, seed, ctx=None):
             hv = rng.choice([b"basic ", b"BASIC ", b"bAsIc "]) + tok; tag = "scheme-case"
             if rng.chance(1, 3):
                 # letters that only Unicode case folding / Latin-1 lowering would take for those of "Basic": other schemes
-                hv = rng.choice([b"Ba\xc5\xbfic ", b"BA\xc5\xbfIC ", b"Ba\xdfic ", b"Bas\xc4\xb1c ", b"BAS\xc4\xb0C ", b"\xe2\x84\xacasic ", b"Bas\xc3\xacc "]) + tok
+                hv = rng.choice([b"Ba\xc5\xbfic ", b"BA\xc5\xbfIC ", b"Ba\xdfic ", b"Bas\xc4\xb1c ", b"BAS\xc4\xb0C ", b"\xe2\x84\xacasic ", b"Bas\xc3\xacc ", b"Basic\x00 ", b"Basic\x00Bearer ", b"basic\x00-v2 ", b"Basic\x00"]) + tok
                 tag = "scheme-lookalike"
         elif kind == 2: hv = b"Basic" + tok; tag = "no-space"
         elif kind == 3: hv = b"Basic  " + tok; tag = "two-spaces"
